@@ -1,6 +1,7 @@
 //! vh — conformance harness binding the TLA+ specifications in /verif/spec to the real
 //! gm-quic code.  Sub-commands replay TLC-generated behaviours into real objects and record
 //! NDJSON traces that the Trace_*.tla specifications validate.
+mod recvbuf;
 mod sendbuf;
 mod util;
 
@@ -14,6 +15,8 @@ fn main() {
     let code = match args[1].as_str() {
         "sendbuf-replay" => sendbuf::replay(rest),
         "sendbuf-random" => sendbuf::random(rest),
+        "recvbuf-replay" => recvbuf::replay(rest),
+        "recvbuf-random" => recvbuf::random(rest),
         other => {
             eprintln!("unknown command {other}");
             2
